@@ -58,15 +58,15 @@ def BlockSrc.expected (line : Int) (b : BlockSrc) : Block :=
   | .string _ key val =>
     .live (.string (strip P (flatten key)) (.str (strip P (flatten val))) line (flatten b.toks) [])
   | .entry lit key fields _ =>
-    .live (.entry { ty := (classify P lit).2, key := strip P (flatten key),
-                    fields := expFields P (line + nlCount key) fields,
-                    line := line, raw := flatten b.toks })
+    -- an entry; a `DuplicateFieldKeyBlock` around it if a field key repeats (C09)
+    mkEntry (classify P lit).2 (strip P (flatten key)) (expFields P (line + nlCount key) fields)
+      line (flatten b.toks)
 
 def allPlain (ts : List Tok) : Prop := ts.all isPlainTok = true
 
 instance (ts : List Tok) : Decidable (allPlain ts) := by unfold allPlain; infer_instance
 
-/-- well-formedness of a source block (C02: field keys within one entry pairwise distinct) -/
+/-- well-formedness of a source block -/
 def BlockSrc.WF : BlockSrc → Prop
   | .comment lit body => (classify P lit).1 = .comment ∧ IsBal body
   | .preamble lit body => (classify P lit).1 = .preamble ∧ IsBal body
@@ -74,8 +74,12 @@ def BlockSrc.WF : BlockSrc → Prop
   | .entry lit key fields tr =>
     (classify P lit).1 = .entry ∧ allPlain key ∧
     (∀ f ∈ fields, allPlain f.key ∧ IsValue f.val) ∧
-    (∀ w, tr = some w → allPlain w) ∧
-    (fields.map fun f => strip P (flatten f.key)).Nodup
+    (∀ w, tr = some w → allPlain w)
+
+/-- C02's side condition: the field keys within one entry are pairwise distinct -/
+def BlockSrc.DistinctFields : BlockSrc → Prop
+  | .entry _ _ fields _ => (fields.map fun f => strip P (flatten f.key)).Nodup
+  | _ => True
 
 def isAtTok : Tok → Bool
   | .mark .at _ => true
@@ -95,6 +99,8 @@ def Doc.toks (d : Doc) : List Tok :=
 
 def Doc.WF (d : Doc) : Prop :=
   IsJunk d.head ∧ ∀ bj ∈ d.items, bj.1.WF P ∧ IsJunk bj.2
+
+def Doc.DistinctFields (d : Doc) : Prop := ∀ bj ∈ d.items, bj.1.DistinctFields P
 
 /-- expected implicit comment of a junk region that starts on line `line`: its stripped text, on
 the line of its first non-blank character -/
